@@ -403,11 +403,11 @@ CACHES = ["_matrix_containers", "_global_matrix_containers", "_prepared_matrix_c
           "_aligned_matrices", "_aligned_full_clp_labels"]
 
 
-def r5(ctx) -> None:
+def r5(ctx, rule: str = "C10-R5") -> None:
     repo = ctx.repo
-    lib.check_filled_items_fresh(ctx, "C10-R5")
-    lib.check_no_parameter_state_in_constructors(ctx, "C10-R5")
-    lib.check_linkable_requires_one_global_dimension(ctx, "C10-R5")
+    lib.check_filled_items_fresh(ctx, rule)
+    lib.check_no_parameter_state_in_constructors(ctx, rule)
+    lib.check_linkable_requires_one_global_dimension(ctx, rule)
     entries = [
         (EST, "EstimationProviderUnlinked.estimate"),
         (EST, "EstimationProviderLinked.estimate"),
@@ -477,6 +477,15 @@ def r5(ctx) -> None:
                 if any(cfg.dominates(r, s) and r is not s for r in rs):
                     ok = True
                     trace.append(f"reset in {f.short} dominates the accumulation")
+                    # an accumulator shared by all items of the evaluation must not be reset once per item:
+                    # a reset inside a function that the entry calls from a loop wipes the earlier items' contributions
+                    if sub is None:
+                        for caller, call in chain:
+                            if any(isinstance(a, (ast.For, ast.While)) for a in lib.ancestors(call, caller.node)):
+                                ok = False
+                                trace.append(f"but {f.short} is called once per item from a loop in {caller.short}: the reset there "
+                                             f"discards what earlier items added to self.{attr}")
+                                break
                 else:
                     # a reset in a caller on the chain that dominates the call
                     for caller, call in reversed(chain):
@@ -486,10 +495,10 @@ def r5(ctx) -> None:
                             ok = True
                             trace.append(f"reset in {caller.short} dominates the call")
                             break
-                ctx.ob("C10-R5", f"{f.short}/reset-before:{attr}{'[' + sub + ']' if sub else ''}{how}", ok, f, s,
+                ctx.ob(rule, f"{f.short}/reset-before:{attr}{'[' + sub + ']' if sub else ''}{how}", ok, f, s,
                        f"self.{attr} accumulates across statements; within one evaluation (entry {entry.short}) a reset of it "
                        "must dominate the accumulation, otherwise the value depends on earlier evaluations", trace)
-    ctx.sites("C10-R5", "accumulation sites reachable from an evaluation", n, 3)
+    ctx.sites(rule, "accumulation sites reachable from an evaluation", n, 3)
     # caches are recomputed unconditionally
     for rel, name in [
         (MAT, "MatrixProvider.calculate_dataset_matrices"), (MAT, "MatrixProviderUnlinked.calculate_global_matrices"),
@@ -512,7 +521,7 @@ def r5(ctx) -> None:
             if isinstance(c.func, ast.Attribute) and c.func.attr in ("setdefault", "get") and any(
                     lib.chain_text(c.func.value) == f"self.{x}" for x in CACHES):
                 bad.append(c)
-        ctx.ob("C10-R5", f"{f.short}/recomputes-unconditionally", not bad, f, bad[0] if bad else f.node,
+        ctx.ob(rule, f"{f.short}/recomputes-unconditionally", not bad, f, bad[0] if bad else f.node,
                "matrices are recomputed on every evaluation; a test on the cached state (memoisation without the "
                "parameters in the key) makes the result depend on the evaluation history",
                construct=lib.short(bad[0], 80) if bad else f"def {f.name}")
@@ -523,7 +532,7 @@ def r5(ctx) -> None:
             for d in fi.decorator_names():
                 if d.split("(")[0] in ("functools.lru_cache", "functools.cache", "lru_cache", "cache", "functools.cached_property",
                                        "cached_property"):
-                    ctx.ob("C10-R5", f"{fi.short}/no-memoisation", False, fi, fi.node,
+                    ctx.ob(rule, f"{fi.short}/no-memoisation", False, fi, fi.node,
                            f"`@{d}` memoises across evaluations in the optimisation path", construct=f"@{d} def {fi.name}")
 
 
